@@ -494,6 +494,56 @@ def unit_scan(unit):
     return _explore(body, unit)
 
 
+def unit_scan_burst(unit):
+    """scan_tick with n events produced in ONE tick (n up to beyond the queue capacity): the automaton
+    step _update_key_state is cut by a stub that yields one event with a symbolic code / kind for each
+    of the first n keys of the table.  All n events are returned in table order and counted, and the
+    queue afterwards is its sequence view extended by all n event bytes with only the OLDEST entries
+    dropped (never the newest), for the given head/tail and symbolic previous contents."""
+    KM = _setup()
+    n, head, tail = unit["n"], unit["head"], unit["tail"]
+
+    def body(eng):
+        kb = KM.KeyboardMatrix()
+        cells = [eng.fresh(f"q{i}", 8) for i in range(KM.FIFO_SIZE)]
+        for i, c in enumerate(cells):
+            kb._fifo[i] = c
+        kb._head, kb._tail = head, tail
+        view = []
+        i = head
+        while i != tail:
+            view.append(cells[i])
+            i = (i + 1) % KM.FIFO_SIZE
+        states = list(kb._key_states.values())
+        made = {}
+
+        def stub(state, active_cols):
+            k = next(j for j, s_ in enumerate(states) if s_ is state)
+            if k >= n:
+                return []
+            code = eng.fresh(f"code{k}", 7)
+            rel = unit.get("release", False)
+            ev = KM.MatrixEvent(code=code, release=rel, repeat=(k % 3 == 1) and not rel)
+            made[k] = ev
+            return [ev]
+        kb._update_key_state = stub
+        irq0 = kb.irq_count
+        ev = kb.scan_tick()
+        P = lambda nm, c, d=None: eng.prove(nm, _b(c), detail=d)
+        P("burst:all-events-returned-in-order", len(ev) == n and all(e is made[k] for k, e in enumerate(ev)))
+        P("burst:counted", kb.irq_count == irq0 + n)
+        cap = KM.FIFO_SIZE - 1
+        want = (view + [made[k].to_byte() for k in range(n)])[-cap:]
+        snap = kb.fifo_snapshot()
+        P("burst:queue-length", len(snap) == len(want), "capacity never exceeded, nothing dropped while there is room")
+        if len(snap) == len(want):
+            P("burst:queue-keeps-the-newest", SymBool(z3.And([T(a) == T(b) for a, b in zip(snap, want)] or [z3.BoolVal(True)])),
+              "queue' = (queue + all events of the tick) with only the oldest entries dropped")
+        return "burst:%d" % n
+
+    return _explore(body, unit)
+
+
 def unit_keyi(unit):
     """KEYI gating in PCE500Emulator._tick_timers: ISR bit 2 is raised iff the scan produced events
     and keyboard interrupts are enabled."""
